@@ -329,13 +329,11 @@ def check_reject_history(ctx, drv, case):
         records.append({"err": err, "recv": c03.safe_view(ds), "ret": c03.safe_view(ret)})
         if rej:
             if err is None:
-                ctx.dist["reject:malformed-call-accepted"] += 1          # outcome compared with the model below
-                try:
-                    tret = c03.apply_op(twin, op)
-                    if not ip and op.get("follow"):
-                        twin, ds = tret, ret
-                except Exception:  # noqa
-                    pass
+                # the code accepted a call this stream means to be rejected: the model decides below (outcome comparison); the
+                # generator's exactness bookkeeping no longer holds for the rest of the history, so the history ends here
+                ctx.dist["reject:malformed-call-accepted"] += 1
+                steps = steps[: i + 1]
+                break
             # ---- the clause: a call that raised leaves array and calibration exactly as they were
             elif after != snap:
                 ctx.pred_fail("rejected-call-changed-state",
@@ -774,7 +772,9 @@ def check_forms_history(ctx, drv, case):
                 return
             continue
         if not call["valid"]:
-            ctx.dist["forms:malformed-call-accepted"] += 1         # the model decides (compared below)
+            ctx.dist["forms:malformed-call-accepted"] += 1         # the model decides (compared below); the history ends here
+            calls = calls[: i + 1]
+            break
         res = ds if ip else ret
         op = call.get("resolved")
         pfx = f"call {i} ({m}, argument forms): "
